@@ -2,6 +2,7 @@ SPECIFICATION Spec
 CONSTANTS
   MaxLen = 5
   Alphabet = {0, 1}
+  M_MaintenanceKeepsTail = TRUE
   Ms = {0, 1, 2, 3}
 INVARIANTS TypeOK LinesExactlyOnce CallsAreLines TailIsRemainder AccumBounded Export
 CHECK_DEADLOCK FALSE
